@@ -1647,6 +1647,14 @@ class HTTP11ClientProtocol(Protocol):
 
     _finishResponse_TRANSMITTING = _finishResponse_WAITING
 
+    def _finishResponse_ABORTING(self, rest: bytes) -> None:
+        """
+        The response was completely received after L{abort} was called but
+        before the connection was lost: there is nothing left to wait for, let
+        go of the parser (so that the request L{Deferred} still fires).
+        """
+        self._disconnectParser(Failure(ConnectionAborted()))
+
     def _disconnectParser(self, reason):
         """
         If there is still a parser, call its C{connectionLost} method with the
@@ -1759,6 +1767,14 @@ class HTTP11ClientProtocol(Protocol):
         if self._state == "CONNECTION_LOST":
             return succeed(None)
         self.transport.loseConnection()
+        if self._state == "TRANSMITTING":
+            # Nothing else will connect the parser's Deferred to the request
+            # Deferred once the state has changed (cbRequestWritten only does
+            # it while TRANSMITTING), so do it now: the request fails when the
+            # parser is disconnected.  The request need not be written any
+            # further either.
+            self._responseDeferred.chainDeferred(self._finishedRequest)
+            self._currentRequest.stopWriting()
         self._state = "ABORTING"
         d = Deferred()
         self._abortDeferreds.append(d)
